@@ -67,6 +67,10 @@ for _tier, _n in (("quick", 100), ("thorough", 2000)):
     FLOORS[_tier].update({"history:step:" + k: int(0.04 * _n) for k in (
         "stringio_b_after_path_a", "handle_b_after_path_a", "path_b_after_refusal", "path_a_after_objects", "handle_a_after_two_paths",
         "stringio_a_after_two_paths", "path_a_other_dtype", "path_a_first_dtype_again", "stringio_a_after_refusal", "handle_a_after_io_fault")})
+for _tier, _n in (("quick", 24), ("thorough", 480)):
+    FLOORS[_tier].update({"long_lines:%d_characters" % k: int(0.4 * _n) for k in (128, 129, 200, 500, 5000)})
+    FLOORS[_tier].update({"long_lines:line_%s:indentation" % k: int(0.08 * _n) for k in (0, 1, 2, 3, 4, "all")})
+    FLOORS[_tier]["long_lines:ranges_written_larger_to_smaller"] = int(0.2 * _n)
 for _tier, _n in (("quick", 70), ("thorough", 1400)):
     FLOORS[_tier].update({"header_faults:wide_range_small_end_files": int(0.4 * 0.45 * 5 * _n), "header_faults:base_values_wide_positive": int(0.1 * _n),
                           "header_faults:base_values_wide_negative": int(0.1 * _n), "header_faults:base_values_wide_small": int(0.1 * _n)})
@@ -89,8 +93,8 @@ _STATE = {}
 
 def plan(tier):
     if tier == "quick":
-        return collections.OrderedDict(wellformed=300, wrapped=100, header_faults=70, body_faults=80, truncation=40, io_faults=40, histories=100, coords=40, defaults=40)
-    return collections.OrderedDict(wellformed=6000, wrapped=2000, header_faults=1400, body_faults=1600, truncation=800, io_faults=800, histories=2000, coords=800, defaults=800)
+        return collections.OrderedDict(wellformed=300, wrapped=100, header_faults=70, body_faults=80, truncation=40, io_faults=40, histories=100, coords=40, defaults=40, long_lines=24)
+    return collections.OrderedDict(wellformed=6000, wrapped=2000, header_faults=1400, body_faults=1600, truncation=800, io_faults=800, histories=2000, coords=800, defaults=800, long_lines=480)
 
 
 # ----------------------------------------------------------------------
@@ -509,6 +513,35 @@ def run_case(run, tap, stream, index, rng):  # noqa: U100
                     cleanup()
         os.remove(path)
         os.remove(titled)
+    elif stream == "long_lines":
+        # "any amount of whitespace": header lines of 128 .. 5000 characters (indentation, blanks / tabs between the two numbers, trailing
+        # blanks) on each header line in turn and on all of them; ranges also written larger-to-smaller
+        dtype = _dtype_arg(rng)
+        spec = sf.random_spec(rng, _effective(dtype), small=True, blanks=bool(index % 2), plain=True)
+        if index % 2:
+            spec.sn, spec.we = spec.sn[::-1], spec.we[::-1]
+            run.count("long_lines:ranges_written_larger_to_smaller")
+        base = spec.header_lines()
+        length = [128, 129, 200, 500, 5000, 127][index % 6]
+        where = ["indentation", "between_numbers", "trailing", "tabs_between_numbers"][(index // 6) % 4]
+
+        def stretch(item):
+            toks = [item] if isinstance(item, str) else list(item)
+            bare = " ".join(toks)
+            pad = max(length - len(bare) - 1, 1)  # the newline counts
+            fill = ("\t" if where == "tabs_between_numbers" else " ") * pad
+            if where == "indentation":
+                return fill + bare
+            if where == "trailing" or len(toks) == 1:
+                return bare + fill
+            return toks[0] + fill + " ".join(toks[1:])
+
+        for which in list(range(5)) + ["all"]:
+            header = [stretch(h) if which == "all" or k == which else h for k, h in enumerate(base)]
+            text = spec.render(header=header)
+            run.count("long_lines:%s_characters" % length)
+            run.count("long_lines:line_%s:%s" % (which, where))
+            _routes(run, mon, text, dtype, "long_header_line", "%s-%s" % (tag, which), ("path", "handle", "stringio"))
     elif stream == "coords":
         # many (range, node count) pairs per case, chosen so that start + step*(n-1) does not round back to the stop: the first and last
         # coordinate must still be the header values bit for bit (judged by the monitor on every load), and .sel on the corners must work
